@@ -33,6 +33,10 @@ type conflict struct {
 	flow nilFlow
 	// similarConflicts stores other conflicts that are similar to this one.
 	similarConflicts []*conflict
+	// sourcePosition is the declaration position of the object (e.g., the variable or the field)
+	// that the nil value of a single assertion conflict is read from, if the producer depends on
+	// one. It is never printed and only serves to tell such conflicts apart for grouping.
+	sourcePosition token.Position
 }
 
 func (c *conflict) String() string {
@@ -79,6 +83,12 @@ func groupConflicts(allConflicts []conflict, pass *analysishelper.EnhancedPass) 
 			if p.producerPosition.IsValid() {
 				key = p.producerPosition.String() + ": " + p.producerRepr
 			} else {
+				// The reprs only mention the name of the object the nil value is read from. Two distinct
+				// objects may share a name even inside one function (e.g., a variable `mp` declared in
+				// each branch of an `if` statement), so we include the declaration position if known.
+				if c.sourcePosition.IsValid() {
+					key = c.sourcePosition.String() + ": " + key
+				}
 				// The heuristic of using producer and consumer repr as key may not work perfectly, especially when the
 				// error messages in two different functions are exactly the same. Consider the following example:
 				// ```
